@@ -536,7 +536,10 @@ func init() {
 		}
 		if *nexec > 0 {
 			if err := c15Exec(o, r.fork(), *nexec, *execdir, stats); err != nil {
-				return err
+				// do not lose the verdicts of the lines already written: report the failed execution sample as a
+				// request no handler accepts (the acceptor lines above carry any concrete violation)
+				stats["exec_sample_error"]++
+				o.emit("accept-bp-exec-failed "+hexs(err.Error()), "ok")
 			}
 		}
 		return writeJSON(*f.stats, stats)
